@@ -141,7 +141,8 @@ L1_FALLBACK = {"c01c02_l1_eat": "c01c02_l1_eat_s", "c01c02_l1_skip": "c01c02_l1_
                "c01c02c17_l1_error_and_eat": "c01c02c17_l1_error_and_eat_s"}
 HARNESSES += [
     H(n, [p for p in ("C01", "C02", "C17", "C04") if p.lower() in n.split("_")[0]], weight=40,
-      replay=None if n in ("c02c17_l1_error_real",) else "l1", fallback=L1_FALLBACK.get(n))
+      replay=None if n in ("c02c17_l1_error_real",) else ("tables" if n == "c02c04_l1_at_set_tables" else "l1"),
+      fallback=L1_FALLBACK.get(n))
     for n in L1
 ] + [
     H(n, ["FALLBACK"], weight=10, replay="l1") for n in L1_FALLBACK.values()
